@@ -38,8 +38,12 @@ def plan_with_clear(pg):
     # message plans do not drop their bundle on the way out, so such plans take no data in the section)
     cleanup_checkpoint = rng.random() < 0.3
     for _ in range(rng.choice([1, 2, 3])):
-        kind = rng.choice(["nulls", "sleep", "set"] if cleanup_checkpoint else ["point", "nulls", "sleep", "set"])
-        if kind == "point":
+        kind = rng.choice(["nulls", "sleep", "set", "flip"] if cleanup_checkpoint else ["point", "nulls", "sleep", "set", "flip"])
+        if kind == "flip":
+            # rewinding switched off and on again inside the section (what trigger_and_read does for a device that
+            # cannot be replayed): that is not a checkpoint, the section stays non-resumable
+            nonres += [msg(S, "rewindable", None, False), msg(S, "null"), msg(S, "rewindable", None, True), msg(S, "null")]
+        elif kind == "point":
             nonres.extend(pg.point(devices=pg.dets[:1], checkpoint=0.0))
         elif kind == "nulls":
             nonres += [msg(S, "null"), msg(S, "null")]
